@@ -93,8 +93,8 @@ impl Case {
   }
 }
 
-const NAMES: [&str; 25] = [
-  ".DS_Store", "!a", "a,b", "a", "b", "c", "a.b", "a b", "ab", "B", "z", "x.txt", "y.txt", "n.md", ".hid", ".git", ".a", "Thumbs.db", "Desktop.ini", "thumbs.db", "Thumbs.db.bak", "desktop.ini", "é", "a-b", "a_b",
+const NAMES: [&str; 27] = [
+  ".ignore", ".gitignore", ".DS_Store", "!a", "a,b", "a", "b", "c", "a.b", "a b", "ab", "B", "z", "x.txt", "y.txt", "n.md", ".hid", ".git", ".a", "Thumbs.db", "Desktop.ini", "thumbs.db", "Thumbs.db.bak", "desktop.ini", "é", "a-b", "a_b",
 ];
 
 fn gen_entries(rng: &mut Rng, depth: usize, allow_links: bool) -> Vec<(String, T)> {
@@ -116,6 +116,13 @@ fn gen_entries(rng: &mut Rng, depth: usize, allow_links: bool) -> Vec<(String, T
   es
 }
 
+fn has_ignore_file(t: &T) -> bool {
+  match t {
+    T::Dir(es) | T::LinkDir(es) => es.iter().any(|(n, e)| n == ".ignore" || n == ".gitignore" || has_ignore_file(e)),
+    _ => false,
+  }
+}
+
 fn gen(rng: &mut Rng) -> Case {
   let root = match rng.below(12) {
     0 => T::File(rng.below(20) as usize),
@@ -135,10 +142,13 @@ fn gen(rng: &mut Rng) -> Case {
     let again = globs[rng.below(globs.len() as u64 - 1) as usize].clone();
     globs.push(again);
   }
+  let ignore_flag = !has_ignore_file(&root) && rng.chance(1, 3);
   Case {
     root,
     hidden: rng.chance(1, 2),
-    ignore: rng.chance(1, 3),
+    // (a tree that holds ignore files is walked without --ignore: there they are ordinary hidden files and what they say
+    // is nobody's business; with --ignore the generated trees hold none, so the flag must not change the listing)
+    ignore: ignore_flag,
     junk: rng.chance(1, 2),
     follow: rng.chance(1, 2),
     globs: globs.clone(),
@@ -154,19 +164,42 @@ fn gen(rng: &mut Rng) -> Case {
 /// materialise in shuffled creation order; symlink targets live outside the root
 fn build(sb: &Sandbox, rel: &str, t: &T, rng: &mut Rng, link_id: &mut u64) {
   match t {
-    T::File(s) => sb.write(rel, &vec![b'x'; *s]),
+    T::File(s) => {
+      // a file called like an ignore file says "ignore everything" (as far as its length allows)
+      if rel.ends_with("/.ignore") || rel.ends_with("/.gitignore") {
+        sb.write(rel, &b"*\n".repeat(*s)[..*s]);
+      } else {
+        sb.write(rel, &vec![b'x'; *s]);
+      }
+    }
     T::Dir(es) => {
       sb.mkdir(rel);
       let mut order: Vec<usize> = (0..es.len()).collect();
       rng.shuffle(&mut order);
       for i in order {
+        // a link may point at a regular file of the same size right beside it: one file, two names, two entries
+        if let T::LinkFile(sz) = &es[i].1 {
+          if let Some((sib, _)) = es.iter().find(|(_, e)| matches!(e, T::File(x) if x == sz)) {
+            if rng.chance(1, 2) {
+              let _ = std::os::unix::fs::symlink(sib, sb.path(&format!("{rel}/{}", es[i].0)));
+              continue;
+            }
+          }
+        }
         build(sb, &format!("{rel}/{}", es[i].0), &es[i].1, rng, link_id);
       }
     }
     T::LinkFile(s) => {
-      *link_id += 1;
-      let target = format!("targets/t{link_id}");
-      sb.write(&target, &vec![b'y'; *s]);
+      // every other link of a given size shares its target with the one before it: one file behind several links
+      let shared = format!("targets/shared-{s}");
+      let target = if *link_id % 2 == 1 && sb.path(&shared).exists() {
+        shared
+      } else {
+        *link_id += 1;
+        let t = if rng.chance(1, 2) { shared } else { format!("targets/t{link_id}") };
+        sb.write(&t, &vec![b'y'; *s]);
+        t
+      };
       if let Some(parent) = sb.path(rel).parent() {
         std::fs::create_dir_all(parent).unwrap();
       }
